@@ -279,7 +279,8 @@ inductive ConnectOutcome
   | cancelled                   -- `except asyncio.CancelledError` (`str(e)` is empty)
 deriving DecidableEq, Repr
 
-def cancelledMsg : Bytes := "connection cancelled".toUTF8.toList
+/-- the bytes of `"connection cancelled"` (compared with the real reply by the harness) -/
+def cancelledMsg : Bytes := [99, 111, 110, 110, 101, 99, 116, 105, 111, 110, 32, 99, 97, 110, 99, 101, 108, 108, 101, 100]
 
 /-- `err = str(e); if not err: err = "connection cancelled"` -/
 def openConnectionReply : ConnectOutcome → Option Bytes
